@@ -1,45 +1,13 @@
 import Acra.Model.Ch11Video
+import Acra.Props.C08.Mpeg
 namespace Acra.Props.C08
-open Acra.Py Acra.Model.Ch11Pay Acra.Model.Ch11Pay.Video Acra.Gen.Ch11Video
+open Acra.Py Acra.Model.Ch11Pay.Video Acra.Model.MPEGTS Acra.Gen.Ch11Video
 
-/-- the transport-stream loop advances by 188 bytes per chunk: fuel len − off + 1 is never exhausted -/
-theorem splitTS_fuel_sufficient (buf : Bytes) (fuel off : Nat) (hf : buf.length - off + 1 ≤ fuel) :
-    splitTS buf fuel off ≠ .error .fuel := by
-  induction fuel generalizing off with
-  | zero => omega
-  | succ fuel ih =>
-    by_cases hlt : off < buf.length
-    · cases hok : chunkOk (slice buf off (off + 188)) with
-      | false => simp [splitTS, hlt, hok]
-      | true =>
-        have := ih (off + 188) (by omega)
-        cases hr : splitTS buf fuel (off + 188) with
-        | ok cs => simp [splitTS, hlt, hok, hr]
-        | error e =>
-          simp only [splitTS, hlt, if_true, hok, hr, ne_eq, Except.error.injEq]
-          intro he; subst he; exact this hr
-    · simp [splitTS, hlt]
+/-! `VideoFormat2.unpack` hands `buffer[4:]` to `MPEGTS.unpack`; since the C04 extension the model does the same (the
+    former private chunk loop `splitTS` is gone), so totality and the work bound are those of the MPEG family's loop:
+    `MPEGTS_unpack_total`, `mpegBlock_progress`, `mpegBlock_advance`, `MPEGTS_items_stride` (Props/C08/Mpeg.lean). -/
 
-theorem splitTS_items_le (buf : Bytes) (fuel off : Nat) (cs : List Bytes) (h : splitTS buf fuel off = .ok cs) :
-    cs.length ≤ buf.length - off := by
-  induction fuel generalizing off cs with
-  | zero => simp [splitTS] at h
-  | succ fuel ih =>
-    by_cases hlt : off < buf.length
-    · cases hok : chunkOk (slice buf off (off + 188)) with
-      | false => simp [splitTS, hlt, hok] at h
-      | true =>
-        cases hr : splitTS buf fuel (off + 188) with
-        | error e => simp [splitTS, hlt, hok, hr] at h
-        | ok ds =>
-          simp only [splitTS, hlt, if_true, hok, hr, Except.ok.injEq] at h
-          subst h
-          have := ih (off + 188) ds hr
-          simp only [List.length_cons]; omega
-    · simp only [splitTS, hlt, if_false, Except.ok.injEq] at h
-      subst h; simp
-
-/-- `VideoFormat2.unpack` (and the `MPEGTS.unpack` loop inside it) terminates on every buffer -/
+/-- `VideoFormat2.unpack` (and the `MPEGTS.unpack` loop inside it) terminates on every buffer, whatever the prior state -/
 theorem Video_unpack_total (t : State) (buf : Bytes) : (unpack t buf).2 ≠ .error .fuel := by
   simp only [unpack]
   cases hc : structUnpackFrom VID_unpack_fmt0 buf 0 with
@@ -50,53 +18,19 @@ theorem Video_unpack_total (t : State) (buf : Bytes) : (unpack t buf).2 ≠ .err
       simp only
       split
       · simp
-      · have := splitTS_fuel_sufficient (buf.drop 4) ((buf.drop 4).length + 1) 0 (by omega)
-        cases hr : splitTS (buf.drop 4) ((buf.drop 4).length + 1) 0 with
-        | ok cs => simp
-        | error e => simp only [ne_eq, Except.error.injEq]; intro he; subst he; exact this hr
+      · have := MPEGTS_unpack_total TS.fresh (buf.drop 4)
+        cases hr : TS.unpack TS.fresh (buf.drop 4) with
+        | mk ts r =>
+          rw [hr] at this
+          cases r with
+          | ok b => simp
+          | error e => simp only [ne_eq, Except.error.injEq]; intro he; subst he; exact this rfl
     | [] => simp
     | _ :: _ :: _ => simp
 
-/-! ### review additions (rev1-C08) -/
-
-/-- [review] work bound with the real stride (`splitTS_items_le` only says one chunk per byte): at most
-    ⌈(len − off)/188⌉ chunks, each non-empty and at most 188 bytes -/
-theorem splitTS_items_stride (buf : Bytes) (fuel off : Nat) (cs : List Bytes) (h : splitTS buf fuel off = .ok cs) :
-    cs.length * 188 ≤ (buf.length - off) + 187 ∧ ∀ c ∈ cs, 0 < c.length ∧ c.length ≤ 188 := by
-  induction fuel generalizing off cs with
-  | zero => simp [splitTS] at h
-  | succ fuel ih =>
-    by_cases hlt : off < buf.length
-    · cases hok : chunkOk (slice buf off (off + 188)) with
-      | false => simp [splitTS, hlt, hok] at h
-      | true =>
-        cases hr : splitTS buf fuel (off + 188) with
-        | error e => simp [splitTS, hlt, hok, hr] at h
-        | ok ds =>
-          simp only [splitTS, hlt, if_true, hok, hr, Except.ok.injEq] at h
-          subst h
-          have := ih (off + 188) ds hr
-          refine ⟨by simp only [List.length_cons, Nat.succ_mul]; omega, ?_⟩
-          intro c hc
-          simp only [List.mem_cons] at hc
-          rcases hc with rfl | hc
-          · simp only [slice_length]; omega
-          · exact this.2 c hc
-    · simp only [splitTS, hlt, if_false, Except.ok.injEq] at h
-      subst h; simp
-
-/-- [review] witness: channel-specific word 0x1000 and two 188-byte transport packets -/
-def wVideo : Bytes :=
-  [0, 0x10, 0, 0] ++ ([0x47, 0x01, 0x00, 0x10] ++ List.replicate 184 0xAB) ++ ([0x47, 0x01, 0x00, 0x11] ++ List.replicate 184 0xCD)
-
-set_option maxRecDepth 20000 in
-example : (unpack fresh wVideo).2 = .ok () ∧ (unpack fresh wVideo).1.blocks.length = 2 := ⟨by rfl, by rfl⟩
-set_option maxRecDepth 20000 in
-example : wVideo.length - 4 + 1 ≤ 400 ∧ (splitTS wVideo 400 4).map List.length = .ok 2 := ⟨by decide, by rfl⟩
-
-/-- [review] packet-level work bound (missing before): an accepted buffer yields at most ⌈(|buf| − 4)/188⌉ blocks -/
+/-- packet-level work bound: an accepted buffer yields at most ⌈(|buf| − 4)/188⌉ blocks -/
 theorem Video_items_le (t : State) (buf : Bytes) (h : (unpack t buf).2 = .ok ()) :
-    (unpack t buf).1.blocks.length * 188 ≤ (buf.length - 4) + 187 := by
+    (unpack t buf).1.mpegts.blocks.length * 188 ≤ (buf.length - 4) + 187 := by
   revert h
   simp only [unpack]
   cases hc : structUnpackFrom VID_unpack_fmt0 buf 0 with
@@ -107,146 +41,60 @@ theorem Video_items_le (t : State) (buf : Bytes) (h : (unpack t buf).2 = .ok ())
       simp only
       split
       · simp
-      · cases hr : splitTS (buf.drop 4) ((buf.drop 4).length + 1) 0 with
-        | ok cs =>
-          simp only
-          intro _
-          have := (splitTS_items_stride _ _ _ _ hr).1
-          simp only [List.length_drop] at this
-          omega
-        | error e => simp
+      · cases hr : TS.unpack TS.fresh (buf.drop 4) with
+        | mk ts r =>
+          cases r with
+          | ok b =>
+            simp only
+            intro _
+            have hb : b = true := by
+              simp only [TS.unpack] at hr
+              split at hr <;> simp_all
+            have := MPEGTS_items_stride TS.fresh (buf.drop 4) (by rw [hr, hb])
+            rw [hr] at this
+            simp only [List.length_drop] at this
+            exact this
+          | error e => simp
     | [] => simp
     | _ :: _ :: _ => simp
-/-! ### packet-level outcome list (review B4): `VideoFormat2.unpack` returns, or raises `struct.error` (fewer than
-    4 bytes) or a bare `Exception` (intra-packet-header bit set, or a 188-byte chunk the transport-stream decoder
-    refuses); each kind characterised on the bytes -/
 
-/-- the chunk loop ends with an exception — always a bare `Exception` — exactly when some chunk
-    `buf[off + 188·k : off + 188·k + 188]` that starts inside the buffer is refused -/
-theorem splitTS_error_iff (buf : Bytes) (fuel off : Nat) (hf : buf.length - off + 1 ≤ fuel) (e : Err) :
-    splitTS buf fuel off = .error e ↔
-      e = .generic ∧ ∃ k, off + 188 * k < buf.length ∧ chunkOk (slice buf (off + 188 * k) (off + 188 * k + 188)) = false := by
-  induction fuel generalizing off with
-  | zero => omega
-  | succ fuel ih =>
-    unfold splitTS
-    by_cases hlt : off < buf.length
-    · simp only [hlt, if_true]
-      by_cases hok : chunkOk (slice buf off (off + 188)) = true
-      · simp only [hok, if_true]
-        have := ih (off + 188) (by omega)
-        cases hr : splitTS buf fuel (off + 188) with
-        | ok cs =>
-          rw [hr] at this
-          simp only [reduceCtorEq, false_iff]
-          rintro ⟨he, k, hk, hc⟩
-          cases k with
-          | zero => simp only [Nat.mul_zero, Nat.add_zero] at hc; rw [hok] at hc; cases hc
-          | succ k =>
-            exact absurd (this.2 ⟨he, k, by omega, by rw [← hc]; congr 2 <;> omega⟩) (by simp)
-        | error e' =>
-          rw [hr] at this
-          simp only [Except.error.injEq]
-          constructor
-          · rintro rfl
-            obtain ⟨he, k, hk, hc⟩ := this.1 rfl
-            exact ⟨he, k + 1, by omega, by rw [← hc]; congr 2 <;> omega⟩
-          · rintro ⟨he, k, hk, hc⟩
-            cases k with
-            | zero => simp only [Nat.mul_zero, Nat.add_zero] at hc; rw [hok] at hc; cases hc
-            | succ k =>
-              have := this.2 ⟨he, k, by omega, by rw [← hc]; congr 2 <;> omega⟩
-              simpa using this
-      · simp only [hok, Bool.false_eq_true, if_false, Except.error.injEq]
-        constructor
-        · rintro rfl
-          exact ⟨rfl, 0, by omega, by simpa using hok⟩
-        · rintro ⟨rfl, _⟩; rfl
-    · simp only [hlt, if_false, reduceCtorEq, false_iff]
-      rintro ⟨_, k, hk, _⟩
-      omega
-
-/-- the channel-specific word (little-endian 32 bits) of a buffer holding it -/
-def videoCsw (buf : Bytes) : Nat := decInt false (buf.take 4)
-
-/-- exactly which exception, and when -/
-theorem Video_unpack_error_iff (t : State) (buf : Bytes) (e : Err) :
-    (unpack t buf).2 = .error e ↔
-      (buf.length < 4 ∧ e = .struct) ∨
-      (4 ≤ buf.length ∧ e = .generic ∧ ((videoCsw buf / 2 ^ 19) % 2 = 1 ∨
-        ∃ k, 188 * k < buf.length - 4 ∧ chunkOk (slice (buf.drop 4) (188 * k) (188 * k + 188)) = false)) := by
+/-- an accepted buffer: no decoded block is empty-handed — every block comes from a chunk of at most 188 bytes that
+    `MPEGPacket.unpack` accepted, in order (`MPEGTS_unpack_n` of C06 states the converse for whole chunks) -/
+theorem Video_ok_is_ts_ok (t : State) (buf : Bytes) (h : (unpack t buf).2 = .ok ()) :
+    (TS.unpack TS.fresh (buf.drop 4)).2 = .ok true ∧ (unpack t buf).1.mpegts = (TS.unpack TS.fresh (buf.drop 4)).1 := by
+  revert h
   simp only [unpack]
-  by_cases h4 : 4 ≤ buf.length
-  · have hc : structUnpackFrom VID_unpack_fmt0 buf 0 = .ok [videoCsw buf] := by
-      simp only [structUnpackFrom, VID_unpack_fmt0, Fmt.size, codesSize, Code.size, unpackCodes, videoCsw, List.drop_zero]
-      have : 0 + (4 + 0) ≤ buf.length := by omega
-      simp only [this, if_true]
-    simp only [hc, IPH_OFFSET]
-    by_cases hiph : (videoCsw buf / 2 ^ 19) % 2 = 1
-    · simp only [hiph, if_true, Except.error.injEq]
-      constructor
-      · rintro rfl; exact Or.inr ⟨h4, rfl, Or.inl trivial⟩
-      · rintro (⟨h, _⟩ | ⟨_, rfl, _⟩)
-        · omega
-        · rfl
-    · simp only [hiph, if_false]
-      have key := splitTS_error_iff (buf.drop 4) ((buf.drop 4).length + 1) 0 (by omega) e
-      simp only [Nat.zero_add, List.length_drop] at key
-      cases hr : splitTS (buf.drop 4) (buf.length - 4 + 1) 0 with
-      | ok cs =>
-        rw [hr] at key
-        simp only [List.length_drop, hr, reduceCtorEq, false_iff]
-        rintro (⟨h, _⟩ | ⟨_, he, h | h⟩)
-        · omega
-        · exact h
-        · exact absurd (key.2 ⟨he, h⟩) (by simp)
-      | error e' =>
-        rw [hr] at key
-        simp only [List.length_drop, hr, Except.error.injEq]
-        constructor
-        · rintro rfl
-          obtain ⟨he, h⟩ := key.1 rfl
-          exact Or.inr ⟨h4, he, Or.inr h⟩
-        · rintro (⟨h, _⟩ | ⟨_, he, h | h⟩)
-          · omega
-          · exact absurd h (by simp)
-          · have := key.2 ⟨he, h⟩
-            simpa using this
-  · have hc : structUnpackFrom VID_unpack_fmt0 buf 0 = .error .struct := by
-      simp only [structUnpackFrom, VID_unpack_fmt0, Fmt.size, codesSize, Code.size]
-      have : ¬ 0 + (4 + 0) ≤ buf.length := by omega
-      simp only [this, if_false]
-    simp only [hc, Except.error.injEq]
-    constructor
-    · rintro rfl; exact Or.inl ⟨by omega, rfl⟩
-    · rintro (⟨_, rfl⟩ | ⟨h, _⟩)
-      · rfl
-      · omega
+  cases hc : structUnpackFrom VID_unpack_fmt0 buf 0 with
+  | error e => simp
+  | ok v =>
+    match v with
+    | [csw] =>
+      simp only
+      split
+      · simp
+      · cases hr : TS.unpack TS.fresh (buf.drop 4) with
+        | mk ts r =>
+          cases r with
+          | ok b =>
+            simp only
+            intro _
+            have hb : b = true := by
+              simp only [TS.unpack] at hr
+              split at hr <;> simp_all
+            exact ⟨by rw [hb], trivial⟩
+          | error e => simp
+    | [] => simp
+    | _ :: _ :: _ => simp
 
-/-- the outcome list — nothing else, in particular never `fuel` -/
-theorem Video_unpack_outcomes (t : State) (buf : Bytes) :
-    (unpack t buf).2 = .ok () ∨ (unpack t buf).2 = .error .struct ∨ (unpack t buf).2 = .error .generic := by
-  cases hr : (unpack t buf).2 with
-  | ok u => exact Or.inl rfl
-  | error e =>
-    rcases (Video_unpack_error_iff t buf e).1 hr with ⟨_, rfl⟩ | ⟨_, rfl, _⟩
-    · exact Or.inr (Or.inl rfl)
-    · exact Or.inr (Or.inr rfl)
+/-- witness: channel-specific word 0x1000, a payload-only packet and a packet with a 7-byte adaptation field (PCR)
+    followed by payload -/
+def wVideo : Bytes :=
+  [0, 0x10, 0, 0] ++ ([0x47, 0x01, 0x00, 0x10] ++ List.replicate 184 0xAB) ++
+    ([0x47, 0x01, 0x00, 0x31, 7, 0x10, 1, 2, 3, 4, 5, 6] ++ List.replicate 176 0xCD)
 
-/-- every outcome is reachable: `wVideo` accepted; 3 bytes → `struct.error`; intra-packet-header bit (bit 19 of the
-    channel-specific word) set → `Exception`; the SECOND chunk's sync byte wrong → `Exception`; a trailing chunk of
-    three bytes (shorter than the 4-byte transport header) → `Exception` -/
-example : (unpack fresh (wVideo.take 3)).2 = .error .struct := by rfl
 set_option maxRecDepth 20000 in
-example : (unpack fresh (wVideo.set 2 8)).2 = .error .generic := by rfl
-set_option maxRecDepth 20000 in
-example : (unpack fresh (wVideo.set 192 0x46)).2 = .error .generic := by rfl
-set_option maxRecDepth 20000 in
-example : (unpack fresh (wVideo ++ [0x47, 0, 0])).2 = .error .generic := by rfl
-
-/-- witness for `splitTS_error_iff` (fuel hypothesis and both sides): a 5-byte stream whose only chunk has the wrong sync byte -/
-example : ([0x46, 0, 0, 0x10, 1] : Bytes).length - 0 + 1 ≤ 6 ∧ splitTS [0x46, 0, 0, 0x10, 1] 6 0 = .error .generic ∧
-    0 + 188 * 0 < ([0x46, 0, 0, 0x10, 1] : Bytes).length ∧
-    chunkOk (slice [0x46, 0, 0, 0x10, 1] (0 + 188 * 0) (0 + 188 * 0 + 188)) = false := ⟨by decide, rfl, by decide, rfl⟩
+example : (unpack fresh wVideo).2.toOption = some () ∧ (unpack fresh wVideo).1.mpegts.blocks.length = 2 ∧
+    ((unpack fresh wVideo).1.mpegts.blocks.map fun p => p.adaption_field.map fun a => a.pcr) = [none, some [1, 2, 3, 4, 5, 6]] ∧
+    wVideo.length = 380 := by decide +kernel
 
 end Acra.Props.C08
